@@ -29,6 +29,7 @@ type cctx struct {
 	cwd    string
 	nsamp  int
 	root   string // the root the oracle judges against (default: the sandbox root)
+	tmpdir string
 	pend   map[string]*pendingViol
 	order  []string
 }
@@ -131,6 +132,7 @@ type nameInfo struct {
 	Esc    bool   `json:"escaping"`
 	Class  string `json:"class"`
 	Extra  any    `json:"extra,omitempty"` // e.g. the full entry list of an archive
+	Check  bool   `json:"-"`               // snapshot after this call even in lazy mode
 }
 
 // do runs one operation on the real code between two trace markers, then applies the
@@ -166,13 +168,33 @@ func (c *cctx) do(ni *nameInfo, op string, fn func() (error, [][]byte)) *opRes {
 	// root needs a file-class system call inside the operation's window, which the
 	// path-access oracle sees; the snapshot is then only needed to put overwritten
 	// canaries back (after an accepted escape) and as a periodic cross-check.
-	if !c.sp.Lazy || (ni.Esc && err == nil) {
+	if !c.sp.Lazy || ni.Check || (ni.Esc && err == nil) {
 		res.Diff = c.sb.check()
 	} else if c.opno%64 == 0 {
 		c.periodic(ni.Comp)
 	}
 	if len(res.Diff) > 12 {
 		res.Diff = append(res.Diff[:12], fmt.Sprintf("… %d more", len(res.Diff)-12))
+	}
+	// The process's private TMPDIR is scratch space a component may use while it runs
+	// (fstree's atomic write stages its file there), but once the call has returned,
+	// nothing it created may be left anywhere outside the root, TMPDIR included.
+	opErr := err
+	if left, rerr := os.ReadDir(c.tmpdir); rerr == nil && len(left) > 0 {
+		var names []string
+		for _, e := range left {
+			sz := int64(-1)
+			if fi, err := e.Info(); err == nil {
+				sz = fi.Size()
+			}
+			names = append(names, fmt.Sprintf("%s (%d bytes)", e.Name(), sz))
+			_ = os.RemoveAll(filepath.Join(c.tmpdir, e.Name()))
+		}
+		c.viol("C18:tmpdir-residue:"+ni.Comp+"."+op,
+			fmt.Sprintf("%s.%s left files behind in the temporary directory, outside its root, after it returned (name %q, error: %v): %s",
+				ni.Comp, op, ni.Name, opErr != nil, strings.Join(names, ", ")),
+			map[string]any{"comp": ni.Comp, "op": op, "name": ni.Name, "kind": ni.Kind, "form": ni.Form, "root": c.sb.Root, "depth": c.sp.Depth,
+				"base": c.sb.Base, "shard": c.sp.Shard, "left_in_tmpdir": names, "result_err": errStr(opErr)}, 1000-len(ni.Name))
 	}
 	compop := ni.Comp + "." + op
 	if c.opsLog != nil {
@@ -345,7 +367,8 @@ func childMain(dir string) {
 	}
 	c.b.Extra["root"] = c.sb.Root
 	c.b.Extra["sandbox"] = c.sb.S
-	c.b.Extra["tmpdir"] = os.TempDir()
+	c.tmpdir = os.TempDir()
+	c.b.Extra["tmpdir"] = c.tmpdir
 	c.b.Extra["comp"] = sp.Comp
 	switch sp.Comp {
 	case "fstree":
